@@ -38,7 +38,7 @@ def run(ctx):
     cov = dict(states=g["distinct"] + st["distinct"], transitions=g["generated"] + st["generated"],
                traces_validated_against_impl=len(lines), evaluations=len(lines), distinct_nontrivial=len(keys),
                rule="request headers: identifiers in {0,1,2^31,2^32-1}^2 x flag bytes x three command/application pairs x result codes (TLC-enumerated) + seeded random headers, answered with Message.Answer; "
-                    "plus CEA / DWA built by a server state machine over memnet and the stream half over the in-memory SCTP backend where available; every header is a distinct non-trivial case Since extended: streams 16, 40, 65535; answers deferred until a message on another stream was read and written with retries whose first attempt fails; a sequence of DWRs with different flags on one connection.",
+                    "plus CEA / DWA built by a server state machine over memnet and the stream half over the in-memory SCTP backend where available; every header is a distinct non-trivial case Since extended: streams 16, 40, 65535; answers deferred until a message on another stream was read and written with retries whose first attempt fails; a sequence of DWRs with different flags on one connection; an earlier answer edited in place; two SCTP writers with the first held at the entry of the transport write; deferred SCTP answers on a Server with WriteTimeout.",
                samples=[dict(req=l["req"], rc=l["rc"], ans=l["ans"]) for l in lines[0:len(lines):max(1, len(lines) // 3)]][:3],
                exhaustive=False, rejected_lines=len(bad), known_finding_hits={k: n for k, (n, _) in v.hits.items()})
     rc = v.finish()
